@@ -96,6 +96,7 @@ type srch struct {
 	s       *sod.Search
 	det     bool // result order is a function of the history (all searched fields indexed)
 	limited bool // a limited Collect was issued on it
+	rev     bool // Reverse() was called on it (sticky)
 }
 
 type Exec struct {
@@ -108,6 +109,8 @@ type Exec struct {
 	w        *bufio.Writer
 	rng      *rand.Rand
 	virtual  bool
+	lastColl []Flat // what the last Collect / One returned, in the order it was returned
+	lastRev  bool
 	failNext int // arm a storage fault at this FS op index for the next op (-1: none)
 	crash    bool // the armed fault is a crash
 	obs      []string // r/s lines of the current op (also kept for the direct oracles)
@@ -386,11 +389,35 @@ func (e *Exec) oracles(t []string) {
 // Step executes one op line
 func (e *Exec) Step(line string) {
 	e.obs = e.obs[:0]
-	fmt.Fprintln(e.w, "op "+line)
 	t := strings.Fields(line)
 	if len(t) == 0 {
+		fmt.Fprintln(e.w, "op "+line)
 		return
 	}
+	if t[len(t)-1] == "@mode" {
+		// generated before the search existed: the comparison mode is decided now
+		sid, _ := strconv.Atoi(t[1])
+		m := 2
+		if _, ok := e.searches[sid]; ok {
+			if t[0] == "one" {
+				m = 0
+				if !e.searches[sid].det {
+					m = 2
+				}
+			} else {
+				lim, _ := strconv.ParseInt(t[2], 10, 64)
+				m = e.collectMode(sid, lim)
+			}
+			if m != 0 && e.stale(sid) {
+				t = []string{"len", t[1]}
+			}
+		}
+		if t[0] != "len" {
+			t[len(t)-1] = strconv.Itoa(m)
+		}
+		line = strings.Join(t, " ")
+	}
+	fmt.Fprintln(e.w, "op "+line)
 	e.oracles(t)
 	armed := e.failNext >= 0
 	if armed {
@@ -656,6 +683,7 @@ func (e *Exec) step(t []string) {
 			}
 			if t[3] == "1" {
 				s.s.Reverse()
+				s.rev = true
 			}
 			mode, _ = strconv.Atoi(t[4])
 			objs, err = s.s.Collect()
@@ -664,6 +692,8 @@ func (e *Exec) step(t []string) {
 		for _, o := range objs {
 			fls = append(fls, e.flat(o))
 		}
+		e.lastColl = append([]Flat{}, fls...)
+		e.lastRev = s.rev
 		if mode == 1 {
 			sort.SliceStable(fls, func(i, j int) bool { return fls[i].U < fls[j].U })
 		}
